@@ -369,6 +369,11 @@ func runC18() {
 		}
 	}
 	runSeq := func(pr propRow, ops []c18op, toCoq bool) {
+		defer func() {
+			if rec := recover(); rec != nil {
+				report(pr.Name, ops, fmt.Sprintf("panic(%v)", rec))
+			}
+		}()
 		p := pr.New()
 		var ref []refCell
 		var tokIDs = map[string]int{}
